@@ -175,11 +175,13 @@ def cli_case(ctx, k):
             for j in range(rng.randint(1, 3)):
                 oseq = M.rnd_seq(rng, rng.randint(4, 20), "ACGT")
                 orate = rng.choice([0, 0.05, 0.1, 0.2, 0.3])
-                others[f"x{j}"] = (oseq, orate)
-                pair = [FLAG[cfg["type"]], f"x{j}=" + SPEC[cfg["type"]].format(s=oseq) + f";e={orate}"]
+                # now and then with its own indel setting (an index may hold adapters with and without indels)
+                oind = cfg["indels"] if rng.random() < 0.6 else (not cfg["indels"])
+                others[f"x{j}"] = (oseq, orate, oind)
+                pair = [FLAG[cfg["type"]], f"x{j}=" + SPEC[cfg["type"]].format(s=oseq) + f";e={orate}" + ("" if oind == cfg["indels"] else (";indels" if oind else ";noindels"))]
                 argv = (pair + argv) if rng.random() < 0.5 else (argv[:2] + pair + argv[2:])
                 for i in range(8):
-                    core = M.mutate(rng, oseq, rng.choice([0, 1, 1, 2, 3]), "ACGT", cfg["indels"])
+                    core = M.mutate(rng, oseq, rng.choice([0, 1, 1, 2, 3]), "ACGT", cfg["indels"] or oind or rng.random() < 0.5)
                     flank = M.rnd_seq(rng, rng.randint(0, 10), "ACGT")
                     s_ = core + flank if cfg["type"] == "prefix" else flank + core
                     recs.append((f"o{j}_{i}", s_, "I" * len(s_)))
@@ -232,11 +234,11 @@ def cli_case(ctx, k):
                     continue
                 if col[7] != "main":
                     # a row of one of the other anchored adapters: judged with that adapter's sequence and tolerance
-                    oseq, orate = others[col[7]]
+                    oseq, orate, oind = others[col[7]]
                     ctx.case(("cli-other", str(argv), read))
                     n = len(read)
                     ok_place = (r0 == 0) if cfg["type"] == "prefix" else (r1 == n)
-                    dist = R.edit_distance(oseq, read[r0:r1], R.make_eq(False, cfg["rw"])) if cfg["indels"] else (R.hamming(oseq, read[r0:r1], R.make_eq(False, cfg["rw"])) if len(oseq) == r1 - r0 else None)
+                    dist = R.edit_distance(oseq, read[r0:r1], R.make_eq(False, cfg["rw"])) if oind else (R.hamming(oseq, read[r0:r1], R.make_eq(False, cfg["rw"])) if len(oseq) == r1 - r0 else None)
                     if not (0 <= r0 <= r1 <= n) or not ok_place or dist != err or err > orate * len(oseq):
                         ctx.violation("cli-row-unexplained", f"info row for adapter {col[7]} ({oseq}, e={orate}): errors={err} start={r0} end={r1} on read {read!r}; "
                                       f"distance of the full adapter to that stretch is {dist}, tolerance {orate * len(oseq):.2f}; argv={argv}", case, klass="other" + cfg["type"])
